@@ -17,6 +17,8 @@
 EXTENDS Integers, FiniteSets
 
 CONSTANTS NCopies, NChunks, NSaves,
+          WriteFaults, \* TRUE = a write may silently alter the data (at most one per save)
+          VerifyAll,   \* TRUE = the re-read result of every copy counts (the code); FALSE = only the last one
           Guarded      \* TRUE = the order of the code; FALSE = rename allowed as soon as the temporary exists
                        \* (used once per run to show that the invariants can fail)
 
@@ -38,7 +40,7 @@ NoneDone == [rm |-> {}, cr |-> {}, ver |-> {}, ren |-> {}]
 Below(c) == 1..(c - 1)
 
 Init == /\ file = [c \in Copies |-> 0]
-        /\ tmp \in [Copies -> {[ex |-> FALSE, n |-> 0, syn |-> FALSE], [ex |-> TRUE, n |-> 1, syn |-> FALSE]}]  \* stale leftovers allowed
+        /\ tmp \in [Copies -> {[ex |-> FALSE, n |-> 0, syn |-> FALSE, bad |-> FALSE], [ex |-> TRUE, n |-> 1, syn |-> FALSE, bad |-> FALSE]}]  \* stale leftovers allowed
         /\ gen = 0 /\ pc = "idle" /\ done = NoneDone /\ old = file /\ okend = FALSE
 
 Begin == /\ pc = "idle" /\ gen < NSaves
@@ -47,14 +49,14 @@ Begin == /\ pc = "idle" /\ gen < NSaves
 
 \* remove a stale temporary (ENOENT is fine)
 TmpRemove(c) == /\ pc = "save" /\ c \notin done.rm /\ Below(c) \subseteq done.cr
-                /\ tmp' = [tmp EXCEPT ![c] = [ex |-> FALSE, n |-> 0, syn |-> FALSE]]
+                /\ tmp' = [tmp EXCEPT ![c] = [ex |-> FALSE, n |-> 0, syn |-> FALSE, bad |-> FALSE]]
                 /\ done' = [done EXCEPT !.rm = @ \cup {c}]
                 /\ UNCHANGED <<file, gen, pc, old, okend>>
 
 \* O_EXCL: fails (and the command stops) when the name exists
 TmpCreate(c) == /\ pc = "save" /\ c \in done.rm /\ c \notin done.cr
                 /\ IF tmp[c].ex THEN pc' = "failed" /\ UNCHANGED <<tmp, done>>
-                   ELSE /\ tmp' = [tmp EXCEPT ![c] = [ex |-> TRUE, n |-> 0, syn |-> FALSE]]
+                   ELSE /\ tmp' = [tmp EXCEPT ![c] = [ex |-> TRUE, n |-> 0, syn |-> FALSE, bad |-> FALSE]]
                         /\ done' = [done EXCEPT !.cr = @ \cup {c}]
                         /\ pc' = pc
                 /\ UNCHANGED <<file, gen, old, okend>>
@@ -67,6 +69,17 @@ TmpWrite(c) == /\ pc = "save" /\ done.cr = Copies /\ tmp[c].n < NChunks
                /\ tmp' = [tmp EXCEPT ![c].n = @ + 1]
                /\ UNCHANGED <<file, gen, pc, done, old, okend>>
 
+\* the same call, but the data does not reach the file as it was sent (a fault of the write path that reports success):
+\* this is what the re-read and CRC check before the renames exists for.  At most MaxBad such writes per behaviour.
+TmpWriteBad(c) == /\ pc = "save" /\ done.cr = Copies /\ tmp[c].n < NChunks
+                  /\ \A d \in Below(c) : tmp[d].n = tmp[c].n + 1
+                  /\ \A d \in Copies \ Below(c) : tmp[d].n = tmp[c].n
+                  /\ \A d \in Copies : ~tmp[d].syn
+                  /\ ~\E d \in Copies : tmp[d].bad
+                  /\ WriteFaults
+                  /\ tmp' = [tmp EXCEPT ![c].n = @ + 1, ![c].bad = TRUE]
+                  /\ UNCHANGED <<file, gen, pc, done, old, okend>>
+
 TmpFsync(c) == /\ pc = "save" /\ done.cr = Copies /\ \A d \in Copies : tmp[d].n = NChunks
                /\ ~tmp[c].syn /\ \A d \in Below(c) : tmp[d].syn
                /\ tmp' = [tmp EXCEPT ![c].syn = TRUE]
@@ -75,16 +88,20 @@ TmpFsync(c) == /\ pc = "save" /\ done.cr = Copies /\ \A d \in Copies : tmp[d].n 
 \* re-read and CRC check of the temporary: only after all copies are flushed; any order
 Verify(c) == /\ pc = "save" /\ done.cr = Copies /\ \A d \in Copies : (tmp[d].n = NChunks /\ tmp[d].syn)
              /\ c \notin done.ver /\ done.ren = {}
-             /\ done' = [done EXCEPT !.ver = @ \cup {c}]
-             /\ UNCHANGED <<file, tmp, gen, pc, old, okend>>
+             \* a temporary that does not read back with the right CRC stops the command before any rename
+             \* (VerifyAll = FALSE: only the result of the last copy counts - used once to show that the invariant can fail)
+             /\ IF tmp[c].bad /\ (VerifyAll \/ c = NCopies)
+                THEN pc' = "failed" /\ UNCHANGED done
+                ELSE done' = [done EXCEPT !.ver = @ \cup {c}] /\ pc' = pc
+             /\ UNCHANGED <<file, tmp, gen, old, okend>>
 
 \* the image that a rename of the temporary installs
-Installed(c) == IF tmp[c].n < NChunks THEN Partial ELSE IF tmp[c].syn THEN gen ELSE Unsynced
+Installed(c) == IF tmp[c].n < NChunks \/ tmp[c].bad THEN Partial ELSE IF tmp[c].syn THEN gen ELSE Unsynced
 
 Rename(c) == /\ pc = "save" /\ (IF Guarded THEN done.ver = Copies ELSE c \in done.cr)
              /\ c \notin done.ren /\ Below(c) \subseteq done.ren
              /\ file' = [file EXCEPT ![c] = Installed(c)]
-             /\ tmp' = [tmp EXCEPT ![c] = [ex |-> FALSE, n |-> 0, syn |-> FALSE]]
+             /\ tmp' = [tmp EXCEPT ![c] = [ex |-> FALSE, n |-> 0, syn |-> FALSE, bad |-> FALSE]]
              /\ done' = [done EXCEPT !.ren = @ \cup {c}]
              /\ UNCHANGED <<gen, pc, old, okend>>
 
@@ -105,7 +122,7 @@ PowerLoss == /\ pc = "save"
              /\ file' = [c \in Copies |-> IF file[c] = Unsynced THEN Partial ELSE file[c]]
              /\ UNCHANGED <<gen, done, old>>
 
-Step(c) == TmpRemove(c) \/ TmpCreate(c) \/ TmpWrite(c) \/ TmpFsync(c) \/ Verify(c) \/ Rename(c)
+Step(c) == TmpRemove(c) \/ TmpCreate(c) \/ TmpWrite(c) \/ TmpWriteBad(c) \/ TmpFsync(c) \/ Verify(c) \/ Rename(c)
 Next == Begin \/ End \/ Kill \/ PowerLoss \/ \E c \in Copies : Step(c)
 Spec == Init /\ [][Next]_vars
 
@@ -119,5 +136,5 @@ FirstIsNewest == \A c \in Copies : file[1] >= file[c]
 \* after a save that ran to its end all copies hold the new image and no temporary is left
 EqualAfterSuccess == okend => (\A c \in Copies : (file[c] = gen /\ ~tmp[c].ex))
 TypeOK == /\ file \in [Copies -> -2..NSaves] /\ gen \in 0..NSaves /\ pc \in {"idle", "save", "failed"}
-          /\ tmp \in [Copies -> [ex : BOOLEAN, n : 0..NChunks, syn : BOOLEAN]]
+          /\ tmp \in [Copies -> [ex : BOOLEAN, n : 0..NChunks, syn : BOOLEAN, bad : BOOLEAN]]
 =============================================================================
